@@ -124,6 +124,9 @@ type env struct {
 	noFinalDrain bool // the scenario ends without processing everything (monitors must not expect completion)
 	hasCancel    bool
 	finalCounts  *finalCounts
+	orderCheck   bool
+	wantSel      []int
+	statusOverride int // families with several workers: final status to assume for "running" checks
 }
 
 func now() int {
